@@ -62,6 +62,26 @@ Theorem C09_unrecorded_always_fails :
 Proof. exact unrecorded_always_fails. Qed.
 Print Assumptions C09_unrecorded_always_fails.
 
+(* grandfathering is a matter of the KEYS of the baseline: the figures an entry records (line count,
+   hash, count) never decide, so an entry belongs to its path and to nothing else - a file that
+   carries the bytes of a recorded file which has vanished is not recorded *)
+Theorem C09_grandfathering_by_key_only :
+  forall (b b' : baseline) (rs : list result),
+  keys b = keys b' -> apply_baseline_comparison rs b = apply_baseline_comparison rs b'.
+Proof. exact apply_keys_only. Qed.
+Print Assumptions C09_grandfathering_by_key_only.
+
+(* src/was is recorded with 12 lines and hash [7] and no longer exists; ./f fails with 12 lines and the
+   same hash [7]: it stays Failed and the run exits 1, also as the only result of a fail-fast run *)
+Example C09_renamed_file_is_not_recorded :
+  let bl := Some [([119;97;115], EContent 12 [7])] in
+  let f := mkResult [46;47;102] Content Failed 12 10 [7] in
+  let fl := mkFlags true None None None false false true in
+  map r_status (o_results (check_step fl [f] [] bl)) = [Failed] /\ o_exit (check_step fl [f] [] bl) = 1 /\
+  ff_trigger (view bl) f = true.
+Proof. vm_compute. repeat split; reflexivity. Qed.
+Print Assumptions C09_renamed_file_is_not_recorded.
+
 (* --update-baseline new never drops or rewrites an entry (of the file as loaded, i.e. under its
    normalised key), with or without --baseline; the only entries that may go are those an auto
    ratchet of the same run reported stale *)
